@@ -197,3 +197,14 @@ M("c18-index-first", "C18", ("pipeline/__init__.py", "                temp = fil
 M("c18-swallow-transfer-error", "C18", ("pipeline/__init__.py", "                with open(p, 'rb') as f:\n                    self._pipeio.put_item(*sub_components[1:], source=f)", "                try:\n                    with open(p, 'rb') as f:\n                        self._pipeio.put_item(*sub_components[1:], source=f)\n                except BaseException as e:\n                    print('warning: transfer failed', e)"))
 M("c18-swap-only-if-sorted-first", "C18", ("pipeline/__init__.py", "            except ValueError:\n                pass\n            else:\n                temp = filenames[-1]", "            except ValueError:\n                pass\n            else:\n                if len(filenames) > 5 and index_index == len(filenames) - 2:\n                    continue_swap = False\n                temp = filenames[-1] if not (len(filenames) > 5 and index_index == len(filenames) - 2) else 'index.wtml'"))
 M("c18-swap-uses-stale-index", "C18", ("pipeline/__init__.py", "                filenames[-1] = 'index.wtml'\n                filenames[index_index] = temp", "                filenames[-1] = 'index.wtml'\n                filenames[index_index - (1 if index_index > 2 else 0)] = temp"))
+
+# ---- C15
+M("c15-inverted-validity", "C15", ("image.py", "            valid = ~np.isnan(sub_i)\n            np.putmask(sub_b, valid, sub_i)", "            valid = np.isnan(sub_i)\n            np.putmask(sub_b, valid, sub_i)"))
+M("c15-any-for-all", "C15", ("image.py", "            return np.all(np.isnan(i))", "            return np.any(np.isnan(i))"))
+M("c15-fill-no-clear", "C15", ("image.py", "        elif self.mode in (ImageMode.F32, ImageMode.F64, ImageMode.F16x3):\n            b.fill(np.nan)\n            b[by_idx, bx_idx] = i[iy_idx, ix_idx]", "        elif self.mode in (ImageMode.F32, ImageMode.F64, ImageMode.F16x3):\n            b[by_idx, bx_idx] = i[iy_idx, ix_idx]"))
+M("c15-rgba-alpha-threshold", "C15", ("image.py", "            valid = sub_i[..., 3] != 0\n", "            valid = sub_i[..., 3] > 2\n"))
+M("c15-f16-any-channel", "C15", ("image.py", "            valid = ~np.any(np.isnan(sub_i), axis=2)", "            valid = ~np.all(np.isnan(sub_i), axis=2)"))
+M("c15-stale-file-kept", "C15", ("pyramid.py", "            try:\n                os.unlink(p)\n            except (FileNotFoundError, OSError):\n                pass", "            pass"))
+M("c15-rgb-alpha", "C15", ("image.py", "            sub_b[..., :3] = sub_i\n            sub_b[..., 3] = 255", "            sub_b[..., :3] = sub_i\n            sub_b[..., 3] = np.maximum(sub_b[..., 3], 254)"))
+M("c15-read-default-swallow", "C15", ("pyramid.py", "                raise ValueError('unexpected value for \"default\": {!r}'.format(default))", "                return None"))
+M("c15-int-replace", "C15", ("image.py", "            np.maximum(sub_b, sub_i, out=sub_b)", "            np.putmask(sub_b, sub_i != 0, sub_i)"))
